@@ -864,10 +864,50 @@ def _canonical_names(j):
         j["renamed_fields"] = fmap
 
 
+def _renamed_types(j):
+    """{new last name: known last name} for private types that were only renamed: a known struct / enum is gone and exactly one
+    type the rules do not know, in the same module, has the same variants and fields (names and types, its own name apart)."""
+    ref = vocabulary_sigs().get("shapes") or {}
+    if not ref:
+        return {}
+    cur = {}
+    for a in j.get("adts", []):
+        cur[a["path"]] = [str(a.get("kind")).lower()] + [[v["name"], [[fl["name"], fl["ty"]["s"]] for fl in v["fields"]]] for v in a.get("variants", [])]
+    missing = [p for p in ref if p not in cur]
+    unknown = [p for p in cur if p not in ref]
+    out = {}
+    for m in missing:
+        mod, mlast = m.rsplit("::", 1) if "::" in m else ("", m)
+        hits = []
+        for u in unknown:
+            umod, ulast = u.rsplit("::", 1) if "::" in u else ("", u)
+            if umod != mod:
+                continue
+            txt = json.dumps(cur[u])
+            txt = re.sub(r"\b%s\b" % re.escape(ulast), mlast, txt)
+            if json.loads(txt) == ref[m]:
+                hits.append(ulast)
+        if len(hits) == 1 and hits[0] not in out and not any(p.rsplit("::", 1)[-1] == hits[0] for p in ref):
+            out[hits[0]] = mlast
+    return out
+
+
 class Facts:
     def __init__(self, path):
         with open(path) as fh:
-            self.j = json.load(fh)
+            raw = fh.read()
+        self.j = json.loads(raw)
+        try:
+            tr = _renamed_types(self.j)
+        except Exception:
+            tr = {}
+        if tr:
+            # a renamed private type: read the whole fact base under the known name (paths, type strings, method names)
+            for new_, old_ in tr.items():
+                raw = re.sub(r"(?<![\w])%s(?![\w])" % re.escape(new_), old_, raw)
+            self.j = json.loads(raw)
+            self.j["renamed_types"] = tr
+        del raw
         global ALIASES
         ALIASES = _aliases([f["name"] for f in self.j["functions"]])
         renamed_ = _renamed_functions(self.j["functions"])
